@@ -37,6 +37,9 @@ func worldC12(w *World) {
 	w.K.LatencyMenu = [][]time.Duration{{0}, {0, time.Millisecond}}[t.Choice(2, "latprofile")]
 	nSess := t.Range(1, 2, "sessions")
 	backendCloses := t.Rare(1, 3, "backendcloses")
+	if w.ShimChunked = t.Rare(1, 4, "chunked-shim-posts"); w.ShimChunked {
+		w.Probe("shim_posts_without_content_length")
+	}
 	startProxy(w)
 	wb := startWSBackend(w)
 	// the backend may ignore the closing handshake, and may be slow to accept one
@@ -55,7 +58,15 @@ func worldC12(w *World) {
 		w.Probe("stalled_backend_on_other_session")
 	}
 	hsDelay := []time.Duration{0, 0, 30 * time.Millisecond, time.Second}[t.Choice(4, "handshakedelay")]
-	wb.rb.Delay = func(r *http.Request) time.Duration { return hsDelay }
+	// now and then an open is aimed at a path whose handshake the backend accepts
+	// (TCP) but does not answer for ten minutes: that call must be answered too
+	muteOpen := t.Rare(1, 6, "muteopen")
+	wb.rb.Delay = func(r *http.Request) time.Duration {
+		if strings.HasPrefix(r.URL.Path, "/mute") {
+			return 10 * time.Minute
+		}
+		return hsDelay
+	}
 	startAgent(w, "-shim-websockets", "-shim-path=shim")
 
 	type sess struct {
@@ -82,6 +93,12 @@ func worldC12(w *World) {
 		// many calls at the same instant, some later
 		c.At = []time.Duration{0, 0, 0, time.Millisecond, 50 * time.Millisecond, 2 * time.Second, 25 * time.Second}[t.Choice(7, "at")]
 		calls = append(calls, c)
+	}
+	var muteCall *shimCall
+	if muteOpen {
+		muteCall = &shimCall{Idx: len(calls), Kind: "open", Sess: -2, Arg: "mute"}
+		calls = append(calls, muteCall)
+		w.Probe("open_against_backend_that_never_answers_the_handshake")
 	}
 	nb := 0
 	if backendCloses {
@@ -160,6 +177,20 @@ func worldC12(w *World) {
 			wg.Add(1)
 			go func() {
 				defer wg.Done()
+				if c.Kind == "open" {
+					c.Started = true
+					c.InvAt = w.K.Now()
+					c.Invoke = w.K.Seq()
+					st, _, _, err := sc.open("ws://example.test/mute")
+					c.Return = w.K.Seq()
+					c.RetAt = w.K.Now()
+					c.Status = st
+					if err != nil {
+						c.Err = err.Error()
+					}
+					c.Done = true
+					return
+				}
 				if c.At > 0 {
 					time.Sleep(c.At)
 				}
@@ -216,7 +247,7 @@ func worldC12(w *World) {
 				if c.Sess == 0 && c.Kind == "close" && c.Arg == "valid" {
 					closedByClient = true
 				}
-				if c.Sess == 0 && c.Arg == "valid" {
+				if c.Sess == 0 && (c.Arg == "valid" || c.Arg == "mixedbatch" || c.Arg == "oddmsg") {
 					// an earlier poll may have consumed messages, and a data call on a
 					// session whose backend is gone tears the relay down early; the clause
 					// is asserted for sessions that were only polled after the backend closed
